@@ -167,6 +167,7 @@ type interpreter struct {
 	symAllocs       []symAlloc
 	hugeAllocs      []string
 	mapOrderMax     int
+	mapOrderBig     bool
 	mapRangesForked int
 	mapRangesFixed  int
 	fixedRangeSites map[string]int
@@ -262,6 +263,7 @@ func (i *interpreter) resetPath(prefix []int) {
 	i.symAllocs = nil
 	i.hugeAllocs = nil
 	i.mapOrderMax = i.cfg.MapOrderMax
+	i.mapOrderBig = false
 	i.usedMapOrder = false
 	i.env = newEnvModel(i)
 	i.lockst = nil
